@@ -20,7 +20,7 @@ use std::sync::Arc;
 
 pub const PROP: &str = "C01";
 
-fn draw_mode(rng: &mut Prng, n: usize) -> Mode {
+pub fn draw_mode(rng: &mut Prng, n: usize) -> Mode {
     match rng.below(20) {
         0..=8 => Mode::Uniform,
         9..=11 => Mode::TieAt {
@@ -995,7 +995,7 @@ pub struct Ctx {
 pub fn context(tier: Tier, seed: u64) -> Result<Ctx, String> {
     let w = report::workers();
     let (runs512, runs1024, k512, k1024) = match tier {
-        Tier::Quick => (1300u64, 300u64, 16, 6),
+        Tier::Quick => (1300u64, 300u64, 24, 24),
         Tier::Thorough => (40000u64, 10000u64, 48, 16),
     };
     let pseed = report::run_seed(seed, "pool", 0);
